@@ -213,7 +213,7 @@ def run(pid, tier, spec, scratch, seed, t0):
             for v in vs[:3]:
                 nrep += 1
                 path = os.path.join(VERIF, "evidence", "replays", "%s-%s-%d.json" % (pid, rep["Harness"], nrep))
-                if label == "write-to-frozen" and spec.get("race_test"):
+                if (label == "write-to-frozen" or label in spec.get("race_labels", [])) and spec.get("race_test"):
                     # engine-only oracle (write-set): confirm by the native race detector
                     json.dump({"harness": rep["Harness"], "label": label, "vx": v.get("Vx") or []}, open(path, "w"), indent=1)
                     rc, out = rep["_unit"].native({"VX_REPLAY": path}, spec["race_test"] + "$", race=True)
